@@ -31,6 +31,11 @@ VV == {<<>>, <<49>>, <<50>>}
 Plain == [stmts |-> <<Text("i"), PrintS(NameE("x")), PrintS(NameE("v"))>>, defs |-> <<>>, out |-> [vv \in VV |-> S2B("iq") \o vv], inh |-> FALSE]
 (* a leaf that writes nothing to its enclosing writer (its only output is captured into a variable) *)
 EmptyLeaf == [stmts |-> <<SetCap("z", <<Text("xyz")>>)>>, defs |-> <<>>, out |-> [vv \in VV |-> <<>>], inh |-> FALSE]
+(* a capture whose body is exactly one print of a non-string: the variable holds the text written, a string *)
+OnePrintLeaf(e, txt) == [stmts |-> <<SetCap("z1", <<PrintS(e)>>), DoS(CallE("id", <<NameE("z1")>>)), Text("~"), PrintS(NameE("z1")), Text("~")>>,
+                         defs |-> <<>>, out |-> [vv \in VV |-> S2B("~" \o txt \o "~")], inh |-> FALSE]
+OnePrintLeaves == { OnePrintLeaf(IntE(5), "5"), OnePrintLeaf(IntE(0), "0"), OnePrintLeaf(BoolE(TRUE), "1"), OnePrintLeaf(BoolE(FALSE), ""),
+                    OnePrintLeaf(NullE, ""), OnePrintLeaf(NumE(96), "1.5") }
 ParentLeaf == [stmts |-> <<BlockS("pz", <<Text("p:"), PrintS(CallE("parent", <<>>)), Text(":p")>>)>>,
                defs |-> <<>>, out |-> [vv \in VV |-> S2B("p:Pq:p")], inh |-> TRUE]
 
@@ -73,6 +78,7 @@ NoMacro(ks) == \A q \in 1..Len(ks) : ks[q] # "macro"
 Pieces == {Build(ks, 1, Plain) : ks \in KindSeqs} \cup {Build(ks, 1, ParentLeaf) : ks \in {q \in KindSeqs : NoMacro(q)}}
           \cup {Twice(Build(ks, 1, Plain)) : ks \in {q \in KindSeqs : Len(q) <= 2}}
           \cup {Build(ks, 1, EmptyLeaf) : ks \in {q \in KindSeqs : Len(q) <= 3}}
+          \cup {Build(ks, 1, lf) : ks \in {q \in KindSeqs : Len(q) <= 1}, lf \in OnePrintLeaves} \cup OnePrintLeaves
 
 Templates(p) ==
   IF p.inh
